@@ -132,6 +132,31 @@ def run(ctx):
                 ecases.append(c)
     ctx.log("C: %d probes with statistics epochs rolling over" % len(ecases))
     allres += cc.run_cases(ctx, [(w, ecases)], par=300, epoch_ms=40)
+    # ---- the deadline is RANDOMISED: not a function of anything an outsider supplies.  A prober registers as a legacy (v0) client with a
+    # secret of its choice and connects right afterwards, several times over with the same secret; one connection at a time, so that
+    # nothing else draws from whatever generator the handler uses.  The deadlines it is given must not coincide.
+    pcases = []
+    for name in ("la", "lb", "lc"):
+        for k in range(5):
+            c = cc.case("c03-legacy-%s-%d" % (name, k), "P0", cc.stream(gen="random", len=40), [], peer_close=True)
+            c["legacy_before"] = name
+            pcases.append(c)
+    for k in range(5):
+        pcases.append(cc.case("c03-legacy-none-%d" % k, "P0", cc.stream(gen="random", len=40), [], peer_close=True))
+    pres = cc.run_cases(ctx, [(w, pcases)], par=1)
+    allres += pres
+    groups = {}
+    for (_, cs, rec) in pres:
+        dl = [e["dl"] for e in rec["ev"] if e["a"] == "SetDeadline"]
+        if dl:
+            groups.setdefault(cs.get("legacy_before", "none"), []).append(dl[0])
+    for name, dls in sorted(groups.items()):
+        if len(dls) >= 4 and max(dls) - min(dls) <= 3:
+            ctx.violation("c03:deadline-predictable:%s" % ("after-legacy-registration" if name != "none" else "constant"),
+                          "the classification deadline is not randomised: %d connections%s were given deadlines %s ms ahead"
+                          % (len(dls), " each preceded by the same legacy registration (secret %r)" % name if name != "none" else "", dls),
+                          {"group": name, "deadlines_ms": dls})
+    ctx.stage("C", deadline_groups={k: v for k, v in groups.items()})
     summary = cc.validate(ctx, "C03", allres, "c03")
     ctx.log("C: %d traces, %d accepted, %d rejected" % (summary["traces"], summary["accepted"], summary["rejected"]))
     # the deadline must be randomised: the observed first deadlines spread over the 5..10 s window
